@@ -283,8 +283,11 @@ let () =
         let is_cb l = String.length l > 3 && String.sub l 0 3 = "cb " in
         let is_adv = (List.hd f = "adv") in
         let is_fire = (List.hd f = "datafire" || List.hd f = "nackfire") in
+        (* the callbacks produced by ONE event are compared as a multiset: the property does not constrain their order
+           (re-entrant Express calls made by them are replayed in the order the implementation made them) *)
+        let _ = is_fire in
         let srt l = if is_adv then List.sort (fun a b -> compare (timeout_key a) (timeout_key b)) l
-                    else if is_fire then List.sort compare l else l in
+                    else List.sort compare l in
         let icbs = srt o.cbs and iouts = List.sort compare o.outs in
         (* first difference between a candidate and the implementation, if any *)
         let differs (st, mobs) : (string * string * string) option =
